@@ -131,7 +131,20 @@ Print Assumptions C20_iknp_chunks_total.
    wires; the gadgets do not apply to it) — records the offered wire, flag
    and delivered label of every call, checks delivered = pick wire flag and
    the share relation on the real outputs of every call, and gives every
-   call to the model as a correspondence case. *)
+   call to the model as a correspondence case.
+   Concurrency: in the model a gadget session is a pure function of its own
+   inputs (own random label, own operands, own OT): sessions share no state,
+   so any number of simultaneous sessions satisfy C20_fx / C20_fxk /
+   C20_vole_session independently.  Whether the Go functions share state
+   between simultaneous calls (package-level variables, reused buffers) is
+   outside the model; C20_state_inventory (below) flags new package-level
+   state statically, and harness c20 runs concurrent-session families over
+   every OT implementation above, oracle-only: (a) two independent sessions
+   whose receivers are BOTH made to wait for their senders (signalling IO)
+   with b = 0 / 1 in all four combinations, a in {0,1}, before either sender
+   speaks; (b) four free-running sessions x 50 rounds with independent random
+   operands; four vole Sender/Receiver pairs running their Mul calls at the
+   same time (these are also correspondence cases). *)
 
 (* Every OT that delivers the chosen label, every 4-byte random label rl of
    the sender, a, b in {0,1}: FxSend returns r, FxReceive returns xb, both
